@@ -594,7 +594,9 @@ class DEVSSimulator(Simulator[TIME], Generic[TIME]):
         carried out for that time, and then the action for that time is 
         carried out. This is INDEPENDENT of the fact whether the time changes 
         or not. The TIME_CHANGED_EVENT is always fired."""
-        if not self._eventlist.is_empty():
+        if not self._eventlist.is_empty() and \
+                self._eventlist.peek_first().time <= \
+                self._replication.end_sim_time:
             event: SimEventInterface = self._eventlist.pop_first()
             self.fire_timed(event.time, Simulator.TIME_CHANGED_EVENT,
                             event.time)
